@@ -1,8 +1,63 @@
-/- line-protocol handlers for the C04 models (stub: nothing modelled yet) -/
-import FontVerif.Model.Base
-namespace FontVerif.Drv.C04
-open FontVerif
+/- line-protocol handlers for the C04 model (Model/Field.lean) on the translator-emitted programs
+(Gen/WriteProgs.lean).
 
-def handle (_cmd : String) (_args : List String) : Option String := none
+`rt <Type> <hex>`: parse the bytes with the reader layout of `<Type>`; answer every visible field's raw value in
+layout order, then whether re-emitting the owned value with the writer program of `<Type>` reproduces the parsed
+prefix of the input byte for byte (hand-written `compute_*` fields are re-supplied from the parsed value):
+`ok name=v name=[a,b] name=[(a.b),(c.d)] … | 1`; `err:parse` when the layout does not fit the bytes;
+`uncovered` when the translator has no pair for the type. -/
+import FontVerif.Model.Field
+import FontVerif.Gen.WriteProgs
+namespace FontVerif.Drv.C04
+open FontVerif FontVerif.Field
+
+def renderVal (kind : String) : Val → String
+  | .num n => toString n
+  | .absent => "absent"
+  | .arr xs =>
+    if kind == "R" then
+      "[" ++ ",".intercalate (xs.map fun r => "(" ++ ".".intercalate (r.map toString) ++ ")") ++ "]"
+    else
+      "[" ++ ",".intercalate (xs.map fun r => ".".intercalate (r.map toString)) ++ "]"
+
+/-- the statement that writes hand-written computed field `k` -/
+def computedId (ws : List WF) (k : Nat) : Option Nat :=
+  (ws.find? fun w => match w.item with | .scalar (.computed k') _ => k' == k | _ => false).map (·.id)
+
+def renderFields (names shows : List String) (hidden : List Bool) (rs : List RF) (view : View) : List String :=
+  let rec go : List String → List String → List Bool → List RF → List String
+    | n :: ns, s :: ss, h :: hs, r :: rs =>
+      let tail := go ns ss hs rs
+      match view.lookup r.id with
+      | some .absent => tail
+      | some v => if h then tail else (n ++ "=" ++ renderVal s v) :: tail
+      | none => tail
+    | _, _, _, _ => []
+  go names shows hidden rs
+
+def rt (ty : String) (bytes : Bytes) : String :=
+  match Gen.WriteProgs.allPairs.find? (fun p => p.1 == ty) with
+  | none => "uncovered"
+  | some (_, names, shows, hidden, ws, rs) =>
+    match parse rs [] bytes with
+    | none => "err:parse"
+    | some (view, rest) =>
+      let fields := renderFields names shows hidden rs view
+      let o := toObj ws view
+      let ext : Ext := fun k _ => match computedId ws k with | some i => numAt view i | none => 0
+      let again :=
+        match emit ext o ws [] with
+        | some (bs, view') => bs ++ rest == bytes && view' == view
+        | none => false
+      let fs := if fields.isEmpty then "-" else " ".intercalate fields
+      s!"ok {fs} | {if again then 1 else 0}"
+
+def handle (cmd : String) (args : List String) : Option String :=
+  match cmd, args with
+  | "rt", [ty, hex] =>
+    match parseHex? hex with
+    | some bs => some (rt ty bs)
+    | none => none
+  | _, _ => none
 
 end FontVerif.Drv.C04
